@@ -5,3 +5,4 @@ import RProofs.Facts.Skeleton
 import RProofs.Par
 import RProofs.Properties.C14
 import RProofs.Properties.C09
+import RProofs.Facts.Bits
